@@ -88,7 +88,9 @@ structure Runtime where
     HTTP/2 stream in progress never finishes (known finding F32). -/
 def Runtime.asyncio : Runtime :=
   { taskDoneCheckOnly := true, lifespanInNursery := false, failedSetsEvent := false, channelsClosedOnExit := false,
-    exitCheckpoints := false, waitClosedBlocksOnConnections := false, stateCopiedAtServe := false,
+    exitCheckpoints := false,
+    -- extracted from the exit path of asyncio/run.py: is `server.wait_closed()` awaited before the bounded wait for the handlers?
+    waitClosedBlocksOnConnections := Extracted.Guards.asyncioWaitClosedBeforeDrain, stateCopiedAtServe := false,
     h2PriorFreshIdleTimer := true, h2CancelDeadlocks := true, endCancelRaises := false, recycleCmp := Extracted.Guards.asyncioRecycleCmp }
 
 /-- the trio worker as the code is now (after fa7ea28, b7ab22b): the channels are still closed behind a leaving application
